@@ -36,7 +36,8 @@ Definition texts_eqb := list_eqb text_eqb.
 Definition lines_case := (list Z * list (list Z) * list (list Z))%type.
 Definition chk_lines (c : lines_case) : bool :=
   let '(t, lines, groups) := c in
-  texts_eqb (readlines t) lines && texts_eqb (retrieve_model lines) groups && texts_eqb (findall t) groups.
+  texts_eqb (readlines t) lines && texts_eqb (retrieve_model lines) groups && texts_eqb (findall t) groups &&
+  texts_eqb (retrieve_model (map strip_nl lines)) groups.
 
 (* JSON layer: (add_time, clock tokens, kwargs as JSON values, counter, real payload, real sys.getsizeof) *)
 Definition json_case := (bool * (list Z * list Z * option (list Z)) * list (list Z * jvalue) * nat * list Z * Z)%type.
@@ -547,6 +548,30 @@ def run_sequence(ctx, seq, lines_cases, lines_meta, sender_cases, sender_meta, j
             ctx.h("counter", "with_gaps")
         elif expected:
             ctx.h("counter", "dense")
+    # ---- the same text handed to retrieve as differently split lines ------------------------
+    if rerr is None and got is not None:
+        from syne_tune.report import retrieve as _retrieve
+        stripped = [ln[:-1] if ln.endswith("\n") else ln for ln in lines]
+        variants = {
+            "no_terminators": stripped,                                     # str.splitlines() / one log message per element
+            "split_on_newline": "".join(lines).split("\n"),                 # text.split("\n"): last element may be ""
+            "rstripped": [ln.rstrip() for ln in lines],
+            "mixed": [ln if i % 2 else st for i, (ln, st) in enumerate(zip(lines, stripped))],
+            "one_element": ["".join(lines)],
+        }
+        for vname, vlines in variants.items():
+            try:
+                vgot = _retrieve(vlines)
+                bad = not (len(vgot) == len(got) and all(same(a, b) for a, b in zip(vgot, got)))
+                what = "returned %d reports instead of %d" % (len(vgot), len(got))
+            except Exception as e:  # noqa
+                bad, what = True, "raised %s: %s" % (type(e).__name__, str(e)[:100])
+            ctx.h("line_variant", vname)
+            if bad:
+                ctx.violation("property", "retrieve on the same captured output handed over as %s lines %s; lines: %r"
+                              % (vname, what, vlines[:6]), case=case,
+                              signature=dict(component="retrieve", defect="depends_on_line_terminators", variant=vname))
+                break
     # ---- correspondence with the model (evaluated in Coq below) ----------------------------
     if len(text) <= 2500 and (got is None or len(groups) == len(got)):
         translated = text.replace("\r\n", "\n").replace("\r", "\n")
